@@ -13,6 +13,8 @@ from evosim.props import common
 
 ID = 'C01'
 LEVEL = 'exploration'
+LEVEL_TEXT = ("seeded search over generated (models, evolution) programs executed through the real evolve command in fresh processes, compared table by table with Django's own schema editor output; a clean batch is evidence, not proof")
+TECHNIQUE = ('deterministic simulation: seeded program generation + real-process execution + sqlite3 observation vs fresh-schema reference model')
 PLAN = {
     'quick': {'count': 400, 'max_wall': 170, 'shrink_budget': 30,
               'shrink_wall': 120},
@@ -97,6 +99,12 @@ def run_upgrade(ws, scn, sts, hashseed=0, **kw):
         proj.deploy(ws, P2, 1, [sts[0], sts[1]])
         hint = ws.run('evolve', {'hint': True, 'write_evolution_name': 'h1'},
                       hashseed=hashseed)
+        if ws.exists('va/evolutions/h1.py') and 'USER VALUE REQUIRED' in \
+                ws.read_file('va/evolutions/h1.py'):
+            # a hint that needs user input is not an evolution to execute
+            # (C13 checks that it refuses to run)
+            hint.placeholder = True
+            return hint, hint
         if ws.exists('va/evolutions/h1.py'):
             ws.write_files({'va/evolutions/__init__.py':
                             spec.render_evolutions_init(['h1'])})
@@ -127,6 +135,9 @@ def execute(scn):
         stats['mode_' + scn.get('mode', 'written')] = 1
         if hint is not None and not ws.exists('va/evolutions/h1.py'):
             stats['hint_wrote_nothing'] = 1
+        if getattr(r, 'placeholder', False):
+            stats['hint_placeholder'] = 1
+            return res
         if common.rejected_before_sql(r):
             stats['rejected_before_sql'] = 1
             return res
